@@ -14,7 +14,7 @@ outside the pickled object graph: nothing reachable from DemeTree.__init__ / run
 mutates a default-argument object (such state would be lost or shared across a restore); (R19.4) no class of the graph defines
 __getstate__/__reduce__/__reduce_ex__/__setstate__/__slots__/__deepcopy__ that could drop attributes (each such method must
 cover every attribute the class assigns); (R19.5) nothing unpicklable by construction (open files, generators, thread locks,
-locally defined classes) is stored on the tree, demes, engines, problems or sprout mechanisms."""
+locally defined classes) is stored on the tree, demes, engines, problems or sprout mechanisms. Round-3/4 extensions: the NaN-tie coin flip counts as an effect of the snapshot operations; dill options that change what is captured (`recurse=True`)."""
 NOTE = """Equality of what dill restores (third-party objects: cma strategy, qmc samplers, structlog logger) and the behaviour of the
 continued run are not decided; they rest on those libraries' own pickling support."""
 TECHNIQUE = "transitive effect summaries (purity of dump/load), global/class-state write detection over the call graph, reducer-hook exhaustiveness"
